@@ -65,11 +65,24 @@ struct SimPair3
   f(long long, x, FIELD_NORMAL, ##__VA_ARGS__) g()                             \
   f(long, a, FIELD_NORMAL, ##__VA_ARGS__) g()                                  \
   f(int[2], pad_to_guest_size, FIELD_NORMAL, ##__VA_ARGS__) g()
-#define sandbox_fields_reflection_invlib_allClasses(f, ...) f(SimPair, invlib, ##__VA_ARGS__) f(SimPair3, invlib, ##__VA_ARGS__)
+// a struct with array fields of integer types that are narrower in the guest: returned by value from a callback
+struct SimCounters
+{
+  unsigned long u[2];
+  long s[2];
+  unsigned short w[2];
+};
+#define sandbox_fields_reflection_invlib_class_SimCounters(f, g, ...)          \
+  f(unsigned long[2], u, FIELD_NORMAL, ##__VA_ARGS__) g()                      \
+  f(long[2], s, FIELD_NORMAL, ##__VA_ARGS__) g()                               \
+  f(unsigned short[2], w, FIELD_NORMAL, ##__VA_ARGS__) g()
+#define sandbox_fields_reflection_invlib_allClasses(f, ...) f(SimPair, invlib, ##__VA_ARGS__) f(SimPair3, invlib, ##__VA_ARGS__) f(SimCounters, invlib, ##__VA_ARGS__)
 rlbox_load_structs_from_library(invlib);
 using GPair = rlbox::Sbx_invlib_SimPair<Sbx>;
 static_assert(sizeof(GPair) == 16);
 using GPair3 = rlbox::Sbx_invlib_SimPair3<Sbx>;
+using GCounters = rlbox::Sbx_invlib_SimCounters<Sbx>;
+static_assert(sizeof(GCounters) == 20);
 static_assert(sizeof(GPair3) == sizeof(SimPair3) && alignof(GPair3) == alignof(SimPair3));
 
 // application-side view of the library's interface (never defined for the sim backend)
@@ -84,6 +97,7 @@ long f_struct(SimPair pr);
 long f_struct3(SimPair3 pr);
 long f_callS(long (*cb)(SimPair), SimPair pr);
 Wide64 f_callE(Wide64 (*cb)(Wide64), Wide64 v);
+long f_callR(SimCounters (*cb)(long), long a);
 int f_image_decoder_pipeline_process_header_block(int v);
 int f_image_decoder_pipeline_process_pixels_block(int v);
 SimPair f_ret_struct(long a);
@@ -139,12 +153,13 @@ enum FnId
   FN_CALLS,
   FN_CALLE,
   FN_PLONG,
+  FN_CALLR,
   FN_LONG1,
   FN_LONG2,
   FN_COUNT
 };
 static const char* kFnName[] = { "f_ints", "f_fp", "f_enum", "f_ptrs", "f_fn", "f_struct", "f_ret_struct", "f_void", "f_many", "f_u",
-                                 "f_rs", "f_ruc", "f_rll", "f_rb", "f_rf", "f_fnret", "f_callc", "f_struct3", "f_callS", "f_callE", "f_plong",
+                                 "f_rs", "f_ruc", "f_rll", "f_rb", "f_rf", "f_fnret", "f_callc", "f_struct3", "f_callS", "f_callE", "f_plong", "f_callR",
                                  "f_image_decoder_pipeline_process_header_block", "f_image_decoder_pipeline_process_pixels_block" };
 
 struct GuestRec
@@ -157,6 +172,12 @@ static bool g_callc_override, g_callc_returned;
 static uint32_t g_callc_fp, g_callc_guest_got;
 static int32_t g_callc_l;
 static long long g_calle_v, g_calle_guest_got;
+static struct
+{
+  uint32_t u[2];
+  int32_t s[2];
+  uint16_t w[2];
+} g_callr_got;
 static uint64_t g_result_bits; // what the guest returns (interpreted per function)
 static void grec(int fn, int lib, std::vector<uint64_t> args)
 {
@@ -201,6 +222,14 @@ struct G
   {
     grec(FN_PTRS, LIB, { p, q, v });
     return (uint32_t)g_result_bits;
+  }
+  static int32_t callR(uint32_t cb, int32_t a)
+  {
+    grec(FN_CALLR, LIB, { cb, (uint64_t)(int64_t)a });
+    GCounters r = Sbx::guest_call<GCounters, int32_t>(cb, a);
+    memcpy(&g_callr_got, &r, sizeof r);
+    g_callc_returned = true;
+    return 1;
   }
   static int32_t plong(uint32_t p, uint32_t pp, uint32_t up)
   {
@@ -350,7 +379,7 @@ static std::vector<Sym> make_lib()
                          { "f_rf", (void*)&G<LIB>::rf },         { "f_fnret", (void*)&G<LIB>::fnret },
                          { "f_callc", (void*)&G<LIB>::callc },   { "f_struct3", (void*)&G<LIB>::st3 },
                          { "f_callS", (void*)&G<LIB>::callS },   { "f_callE", (void*)&G<LIB>::callE },
-                         { "f_plong", (void*)&G<LIB>::plong },
+                         { "f_plong", (void*)&G<LIB>::plong },   { "f_callR", (void*)&G<LIB>::callR },
                          { "f_image_decoder_pipeline_process_header_block", (void*)&G<LIB>::long1 },
                          { "f_image_decoder_pipeline_process_pixels_block", (void*)&G<LIB>::long2 } };
   if (LIB == 1)
@@ -487,6 +516,21 @@ static rlbox::tainted<Wide64, Sbx> app_cbE(Sandbox& sb, rlbox::tainted<Wide64, S
   return (Wide64)g_cbe_ret;
 }
 
+// a callback that returns a registered struct with integer array fields by value
+static SimCounters g_cbr_ret;
+static int g_cbr_runs;
+static rlbox::tainted<SimCounters, Sbx> app_cbR(Sandbox&, rlbox::tainted<long, Sbx>)
+{
+  g_cbr_runs++;
+  rlbox::tainted<SimCounters, Sbx> r;
+  for (int i = 0; i < 2; i++) {
+    r.u[i] = g_cbr_ret.u[i];
+    r.s[i] = g_cbr_ret.s[i];
+    r.w[i] = g_cbr_ret.w[i];
+  }
+  return r;
+}
+
 enum Kind
 {
   I_INTS,
@@ -588,6 +632,8 @@ struct InvokeWorld : World
     uint64_t fn_translations_at_create = 0;
     using CbE = rlbox::sandbox_callback<Wide64 (*)(Wide64), Sbx>;
     std::unique_ptr<CbE> cbe;
+    using CbR = rlbox::sandbox_callback<SimCounters (*)(long), Sbx>;
+    std::unique_ptr<CbR> cbr;
     TT<char*> buf = nullptr;
     TT<int*> ibuf = nullptr;
     bool have_addr[FN_COUNT] = {};
@@ -1386,8 +1432,60 @@ struct InvokeWorld : World
       C->violate("C12", "wrong_result_delivered_to_guest@callback_scalar_kinds", "wide enum: callback returned %lld, guest received %lld, application got %lld (%s)", g_cbe_ret, g_calle_guest_got, got, oname(o));
   }
 
+  // C12: a callback returns a struct by value whose array fields hold integers that are narrower in the guest: every
+  // element arrives as it was, or (one that the guest type cannot hold) the call aborts
+  void op_cbretstruct(SbxM& m, const Op& op)
+  {
+    if (!m.cbr)
+      return;
+    Rng r((uint64_t)op.a[2]);
+    bool fits = true;
+    for (int i = 0; i < 2; i++) {
+      uint64_t u = (uint64_t)pick_int(r, 64, false);
+      if (r.chance(3, 4))
+        u = (uint32_t)u;
+      int64_t sv = (int64_t)pick_int(r, 64, true);
+      if (r.chance(3, 4))
+        sv = (int32_t)sv;
+      g_cbr_ret.u[i] = (unsigned long)u;
+      g_cbr_ret.s[i] = (long)sv;
+      g_cbr_ret.w[i] = (unsigned short)pick_int(r, 16, false);
+      fits = fits && u <= 0xFFFFFFFFull && sv >= INT32_MIN && sv <= INT32_MAX;
+    }
+    g_cbr_runs = 0;
+    g_callc_returned = false;
+    memset(&g_callr_got, 0, sizeof g_callr_got);
+    size_t before = g_glog.size();
+    long got = 0;
+    Outcome o = attempt([&] { got = m.sb->invoke_sandbox_function(f_callR, *m.cbr, 3L).UNSAFE_unverified(); });
+    C->ev("callback_returns_struct_with_arrays fits=%d -> %s", (int)fits, oname(o));
+    C->probe("callback_returns_struct_with_integer_arrays");
+    if (g_glog.size() != before + 1 || g_glog.back().fn != FN_CALLR)
+      return;
+    if (g_cbr_runs != 1) {
+      C->violate("C12", "callback_not_run_exactly_once@callback_scalar_kinds", "struct result: %d runs (%s)", g_cbr_runs, oname(o));
+      return;
+    }
+    if (!fits) {
+      C->fired("F9_unrepresentable_callback_result");
+      if (o != ABORT || g_callc_returned)
+        C->violate("C12", "unrepresentable_result_not_refused@callback_scalar_kinds", "struct result with array elements (%lu, %lu, %ld, %ld): %s, the guest received (%u, %u, %d, %d)", g_cbr_ret.u[0], g_cbr_ret.u[1], g_cbr_ret.s[0],
+                   g_cbr_ret.s[1], oname(o), g_callr_got.u[0], g_callr_got.u[1], g_callr_got.s[0], g_callr_got.s[1]);
+      return;
+    }
+    bool same = g_callc_returned;
+    for (int i = 0; i < 2; i++)
+      same = same && g_callr_got.u[i] == (uint32_t)g_cbr_ret.u[i] && g_callr_got.s[i] == (int32_t)g_cbr_ret.s[i] && g_callr_got.w[i] == g_cbr_ret.w[i];
+    if (o != OK || !same || got != 1)
+      C->violate("C12", "wrong_result_delivered_to_guest@callback_scalar_kinds", "struct result: %s, elements (%lu, %lu) arrived as (%u, %u)", oname(o), g_cbr_ret.u[0], g_cbr_ret.u[1], g_callr_got.u[0], g_callr_got.u[1]);
+  }
+
   void op_cbtypes(SbxM& m, const Op& op)
   {
+    if ((op.a[1] & 7) == 5) {
+      op_cbretstruct(m, op);
+      return;
+    }
     if (op.a[1] & 4) {
       op_cbstruct(m, op);
       return;
@@ -1550,6 +1648,7 @@ struct InvokeWorld : World
       m.cbc = std::make_unique<SbxM::CbC>(m.sb->register_callback(app_cbC));
       m.cbs = std::make_unique<SbxM::CbS>(m.sb->register_callback(app_cbS));
       m.cbe = std::make_unique<SbxM::CbE>(m.sb->register_callback(app_cbE));
+      m.cbr = std::make_unique<SbxM::CbR>(m.sb->register_callback(app_cbR));
     });
   }
 
@@ -1667,6 +1766,7 @@ struct InvokeWorld : World
           m.cbc.reset();
           m.cbs.reset();
           m.cbe.reset();
+          m.cbr.reset();
           attempt([&] { m.sb->destroy_sandbox(); });
           m.created = false;
           c.fired("F12_destroy_instance");
@@ -1799,6 +1899,7 @@ struct InvokeWorld : World
       m.cbc.reset();
       m.cbs.reset();
           m.cbe.reset();
+          m.cbr.reset();
       if (m.created)
         attempt([&] { m.sb->destroy_sandbox(); });
     }
